@@ -50,7 +50,15 @@ structure Err where
 /-- `sort_by_key(|e| e.to_string())` / `sort_by_cached_key(Error::to_string)`: stable sort by message. -/
 def leMsg (a b : Err) : Bool := decide (a.msg ≤ b.msg)
 
-def sortByMsg (σ : List Err) : List Err := σ.mergeSort leMsg
+/-- Insert before the first element whose message is not smaller (keeps the sort stable). -/
+def insertByMsg (e : Err) : List Err → List Err
+  | [] => [e]
+  | a :: l => if leMsg e a then e :: a :: l else a :: insertByMsg e l
+
+/-- Stable sort by message (insertion sort: structurally recursive, so `decide` can evaluate it). -/
+def sortByMsg : List Err → List Err
+  | [] => []
+  | a :: l => insertByMsg a (sortByMsg l)
 
 /-! ## Containers -/
 
@@ -151,8 +159,11 @@ def perms : List Err → List (List Err)
   | a :: l => (perms l).flatMap (insertions a)
 
 /-- Messages `select` can report over all arrival orders of the multiset `es` (sorted, deduplicated). -/
+def insertStr (s : String) : List String → List String
+  | [] => [s]
+  | a :: l => if s = a then a :: l else if s ≤ a then s :: a :: l else a :: insertStr s l
+
 def image (select : List Err → Option Err) (es : List Err) : List String :=
-  let ms := (perms es).filterMap (fun σ => reported (select σ))
-  (ms.mergeSort (fun a b => decide (a ≤ b))).eraseDups
+  ((perms es).filterMap (fun σ => reported (select σ))).foldr insertStr []
 
 end Wild.ErrSelect
